@@ -272,7 +272,7 @@ def guard_table(repo):
             cond = ""
             for k in range(ln - 2, max(ln - 14, -1), -1):
                 m = re.search(r"\bif\s*\((.*)", lines[k])
-                if m:
+                if m and "display" not in m.group(1):
                     cond = m.group(1).replace(" ", "")
                     break
             if "rainfall" in cond:
